@@ -71,6 +71,8 @@ class Interp(OpsMixin, BuiltinsMixin):
         self.memo_store = {}
         self.visited = set()
         self.loop_stack = []
+        self.try_stack = []
+        self.cursors = {}
         self.dyn_syms = {}
         self.missing_modules = set()
         self.notes = []
@@ -172,6 +174,8 @@ class Interp(OpsMixin, BuiltinsMixin):
         self.callstack = []
         self.notes = []
         self.loop_stack = []
+        self.try_stack = []
+        self.cursors = {}
         self.memo_store = {}
 
     def rollback(self):
@@ -612,9 +616,23 @@ class Interp(OpsMixin, BuiltinsMixin):
         self.exec_block(s.body, frame)
 
     def st_Try(self, s, frame):
+        names = set()
+        for h in s.handlers:
+            if h.type is None:
+                names.add("*")
+            else:
+                for n in ast.walk(h.type):
+                    if isinstance(n, ast.Name):
+                        names.add(n.id)
+                    elif isinstance(n, ast.Attribute):
+                        names.add(n.attr)
         try:
             try:
-                self.exec_block(s.body, frame)
+                self.try_stack.append(names)
+                try:
+                    self.exec_block(s.body, frame)
+                finally:
+                    self.try_stack.pop()
             except PyRaise as e:
                 handled = False
                 for h in s.handlers:
@@ -681,6 +699,14 @@ class Interp(OpsMixin, BuiltinsMixin):
             return
         # dynamic iterable: summarise
         elem = self.element_of(it, s, frame)
+        ra = getattr(it, "range_args", None)
+        if ra is not None and isinstance(s.target, ast.Name) and len(ra) in (2, 3) and isinstance(norm_int(ra[2] if len(ra) == 3 else 1), int) \
+                and norm_int(ra[2] if len(ra) == 3 else 1) >= 1:
+            # for pos in range(start, <dynamic stop>, step): pos is an index that walks in steps (see cursor views)
+            loop_id = "%s:L%d" % (frame.func.qualname if frame.func else frame.module.name, s.lineno)
+            cname = ("loopvar", loop_id, s.target.id)
+            elem = Sym.opaque(cname)
+            self.cursors[cname] = {"pre": ra[0], "views": {}, "step": norm_int(ra[2] if len(ra) == 3 else 1)}
         self.summarise_loop(s, frame, elem_target=s.target, elem=elem, iterable=it)
 
     def st_While(self, s, frame):
@@ -745,7 +771,17 @@ class Interp(OpsMixin, BuiltinsMixin):
                 head[n] = frame.locals[n]
         if elem_target is not None:
             self.assign(elem_target, elem, frame)
+        test_operands = None
         if test is not None:
+            if isinstance(test, ast.Compare) and len(test.ops) == 1:
+                # the two sides of the loop test at the head of an iteration (for the variant: cursor against bound)
+                self.no_decide += 1
+                try:
+                    test_operands = (type(test.ops[0]).__name__, self.eval(test.left, frame), self.eval(test.comparators[0], frame))
+                except (_Undetermined, PyRaise, AnalysisError):
+                    test_operands = None
+                finally:
+                    self.no_decide -= 1
             tv = self.eval(test, frame)
             self.assume_true(tv, test, frame)
         exit_kind = "fallthrough"
@@ -763,18 +799,63 @@ class Interp(OpsMixin, BuiltinsMixin):
             self.event("loop-body", loop=loop_id, node=s, head=head, pre=pre,
                        end=dict((n, frame.locals.get(n)) for n in head),
                        exit="return" if isinstance(e, _Return) else "raise",
-                       test=test, where=frame.where(s), iterable=iterable)
+                       test=test, where=frame.where(s), iterable=iterable, test_operands=test_operands)
             frame.loop_depth = depth
             raise
+        end = dict((n, frame.locals.get(n)) for n in names if n in frame.locals)
+        self.cursor_views_of_loop(s, frame, loop_id, head, end, pre)
         self.loop_stack.pop()
         frame.loop_depth = depth
-        end = dict((n, frame.locals.get(n)) for n in names if n in frame.locals)
         self.event("loop-body", loop=loop_id, node=s, head=head, pre=pre, end=end,
-                   exit=exit_kind, test=test, where=frame.where(s), iterable=iterable)
+                   exit=exit_kind, test=test, where=frame.where(s), iterable=iterable, test_operands=test_operands)
         # after the loop: havoc again (0..n iterations)
         for n in names:
             if n in frame.locals:
                 frame.locals[n] = self.havoc_after(pre.get(n, _ABSENT), frame.locals[n], loop_id, n)
+
+    def cursor_views_of_loop(self, s, frame, loop_id, head, end, pre):
+        """an integer the loop advances and uses to slice a device view is a cursor: V[pos + a : pos + b] was evaluated as
+        W[a:b] with W the view that starts at the cursor (exactly what `V = V[stride:]` walks); here, at the end of the
+        body, W and W advanced by this iteration's stride are added to the loop's head / end state under the name of the
+        variable that holds V, so that a walk by index and a walk by re-slicing are the same facts"""
+        for cname, rec in list(self.cursors.items()):
+            if cname[1] != loop_id or not rec["views"]:
+                continue
+            posname = cname[2]
+            if "step" in rec:
+                d = rec["step"]
+            else:
+                if posname not in head or posname not in end:
+                    continue
+                cs = self.cursor_split(end[posname])
+                if cs is None or cs[0] != cname:
+                    if norm_int(end[posname]) is norm_int(head[posname]):
+                        cs = (cname, 0)
+                    else:
+                        continue      # the cursor is not advanced by adding to it: no stride to state
+                d = cs[1]
+                if isinstance(d, Sym):
+                    # the very value the body added, if a variable still holds it (its facts and bounds apply)
+                    for val in frame.locals.values():
+                        val = norm_int(val)
+                        if isinstance(val, Sym) and val.poly is not None and val.poly == d.poly:
+                            d = val
+                            break
+            for vid, (v, W, P) in rec["views"].items():
+                if isinstance(d, int) and d < 0:
+                    continue
+                Wend = W if (isinstance(d, int) and d == 0) else self.view_get(W, slice(d, None), s, frame)
+                vname = None
+                for n, val in frame.locals.items():
+                    if val is v:
+                        vname = n
+                        break
+                key = vname or posname
+                if key in head and key != posname:
+                    continue          # the view variable itself is re-bound in the body: that walk is already described
+                head[key] = W
+                end[key] = Wend
+                pre[key] = P
 
     def body_may_exit(self, s):
         c = getattr(s, "_may_exit", None)
@@ -810,7 +891,9 @@ class Interp(OpsMixin, BuiltinsMixin):
         if isinstance(v, bool):
             return Unknown("loop-carried %s" % name)
         if isinstance(v, int) or isinstance(v, Sym):
-            return Sym.opaque(("loopvar", loop_id, name))
+            cname = ("loopvar", loop_id, name)
+            self.cursors[cname] = {"pre": v, "views": {}}
+            return Sym.opaque(cname)
         if isinstance(v, (str, SymStr)):
             return SymStr(("loopvar", loop_id, name))
         return v
